@@ -312,5 +312,5 @@ def plan(tier, seed):
                     "solve() (element placement); the is_compatible kind test in front of the arms is not on that path", "the rejection of blocks whose heights/widths disagree or whose kinds differ: those checks live in matrix()/matrix_row() "
                     "(src/interpreter/src/structures.rs), which evaluate syntax nodes with an Interpreter", "more than 5 blocks; results larger than 4x4 / 2x7",
                     "empty / optional elements", "fixed-size storage forms"],
-        "caps": {"quick_timeout": 900, "thorough_timeout": 2400, "heavy_jobs": 6, "heavy_rss_gb": 9},
+        "caps": {"quick_timeout": 800, "thorough_timeout": 2400, "heavy_jobs": 10, "heavy_rss_gb": 6},
     }
